@@ -25,6 +25,15 @@ CONFIGS = {
     "miri_unsafe_sse2": dict(tlsh=BASE_FEATURES + ["unsafe"], sim=[], rustflags=""),
     "miri_unsafe_sse41": dict(tlsh=BASE_FEATURES + ["unsafe"], sim=[], rustflags="-C target-feature=+sse4.1,+ssse3"),
     "miri_unsafe_avx2": dict(tlsh=BASE_FEATURES + ["unsafe"], sim=[], rustflags="-C target-feature=+avx2"),
+    # C17 engines: debug assertions + overflow checks (native), AddressSanitizer (nightly)
+    "dbg": dict(tlsh=BASE_FEATURES, sim=[], profile={"opt-level": 2, "debug-assertions": "true", "overflow-checks": "true"}),
+    "dbg_unsafe": dict(tlsh=BASE_FEATURES + ["unsafe"], sim=[], profile={"opt-level": 2, "debug-assertions": "true", "overflow-checks": "true"}),
+    "rel_unsafe": dict(tlsh=BASE_FEATURES + ["unsafe"], sim=[]),
+    "asan_unsafe": dict(tlsh=BASE_FEATURES + ["unsafe"], sim=[], toolchain="nightly", rustflags="-Zsanitizer=address",
+                        target="x86_64-unknown-linux-gnu", profile={"opt-level": 2, "debug-assertions": "true"}),
+    "asan": dict(tlsh=BASE_FEATURES, sim=[], toolchain="nightly", rustflags="-Zsanitizer=address",
+                 target="x86_64-unknown-linux-gnu", profile={"opt-level": 2, "debug-assertions": "true"}),
+    "miri_unsafe_serde": dict(tlsh=BASE_FEATURES + ["unsafe", "serde", "strict-parser"], sim=["serde"], rustflags=""),
     # C18: the simulator owns the global allocator
     "alloc_default": dict(tlsh=BASE_FEATURES, sim=["alloc_world"]),
     "alloc_plain": dict(tlsh=["std", "easy-functions"], sim=["alloc_world"]),
@@ -293,7 +302,7 @@ class Verdict:
             doc = {"property": self.pid, "scenario": scenario, "config": config, "seed": rep.get("seed", str(self.seed)),
                    "index": v.get("index"), "history": v.get("history"), "violation": {"class": v["class"], "detail": v["detail"]},
                    "original_history": v.get("original_history"), "shrink_steps": v.get("shrink_steps")}
-            for extra_key in ("engine", "argv", "miri_seed", "schedule", "rustflags"):
+            for extra_key in ("engine", "argv", "miri_seed", "schedule", "rustflags", "env"):
                 if extra_key in v:
                     doc[extra_key] = v[extra_key]
             json.dump(doc, open(path, "w"), indent=1)
@@ -362,17 +371,36 @@ def sim_batch(ctx, vd, config, binary, scenario, count, threads=NCPU, start=0, e
     return rep
 
 
-def sim_batch_procs(ctx, vd, config, binary, scenario, count, procs=NCPU, extra=()):
+def sim_batch_procs(ctx, vd, config, binary, scenario, count, procs=NCPU, extra=(), abort_engine=None, env=None):
     """Like sim_batch, but as `procs` single-threaded processes over disjoint index ranges
-    (for scenarios that own process-global state: CPU mask, dispatch epoch, allocator)."""
+    (for scenarios that own process-global state: CPU mask, dispatch epoch, allocator -- or whose
+    failure mode is a process abort: with abort_engine set, an abnormal exit is a violation and the
+    run that was executing is identified through the progress file)."""
     per = (count + procs - 1) // procs
     t = time.time()
+    tmp = os.path.join(ctx.build_root, config, "progress-" + scenario)
+    os.makedirs(tmp, exist_ok=True)
     def one(i):
         lo = i * per
         n = max(0, min(per, count - lo))
         if n == 0:
             return None
-        code, rep, err = run_sim(ctx, binary, ["batch", scenario, "--seed", vd.seed, "--start", lo, "--count", n, "--threads", 1] + list(extra))
+        args = ["batch", scenario, "--seed", vd.seed, "--start", lo, "--count", n, "--threads", 1] + list(extra)
+        pf = os.path.join(tmp, "p%d" % i)
+        if abort_engine:
+            args += ["--progress-file", pf]
+        code, rep, err = run_sim(ctx, binary, args, allow_abort=bool(abort_engine), env=env)
+        if code not in (0, 1):
+            idx = int(open(pf).read() or lo) if os.path.exists(pf) else lo
+            hist = subprocess.run([binary, "history", scenario, "--seed", str(vd.seed), "--index", str(idx)] + [a for a in extra if a == "--small"],
+                                  stdout=subprocess.PIPE, text=True, env=env).stdout.strip()
+            msg = [l for l in err.splitlines() if l.strip()]
+            key = next((l for l in msg if "ERROR: AddressSanitizer" in l or "unsafe precondition" in l or "panicked" in l or "SIG" in l), msg[-1] if msg else "")
+            key = {-11: "SIGSEGV ", -6: "SIGABRT ", -4: "SIGILL ", -7: "SIGBUS "}.get(code, "") + key
+            return {"scenario": scenario, "seed": str(vd.seed), "evaluations": max(0, idx - lo), "violation_count": 1,
+                    "violations": [{"index": idx, "class": "%s:%s" % (abort_engine, re.sub(r"[0-9a-fx]{6,}|\d+", "", key)[:80].strip()), "engine": abort_engine,
+                                    "detail": "process died (exit %s) while executing run %d: %s" % (code, idx, " | ".join(msg[-6:])[:700]),
+                                    "history": json.loads(hist) if hist else None, "argv": [str(a) for a in ["batch", scenario, "--seed", vd.seed, "--start", lo, "--count", idx - lo + 1, "--threads", 1] + list(extra)]}]}
         return rep
     with ThreadPoolExecutor(max_workers=procs) as ex:
         reps = [r for r in ex.map(one, range(procs)) if r]
@@ -641,6 +669,84 @@ def check_C18(ctx, tier, seed):
     return vd.finish()
 
 
+def miri_batches(ctx, vd, key, scenario, count, procs, extra=()):
+    """Runs `count` small histories of `scenario` under Miri, split over `procs` interpreter processes."""
+    per = max(1, count // procs)
+    # warm-up (builds the Miri sysroot / crate once, serially)
+    c0, o0, e0 = miri_run(ctx, key, ["batch", scenario, "--seed", vd.seed, "--start", 0, "--count", 0, "--threads", 1])
+    if c0 != 0:
+        sys.stderr.write(e0[-3000:])
+        raise HarnessError("Miri warm-up failed for %s" % key)
+    t = time.time()
+    def one(i):
+        args = ["batch", scenario, "--seed", vd.seed, "--start", i * per, "--count", per, "--threads", 1, "--small", "--trace-runs", "--shrink-budget", 300] + list(extra)
+        code, out, err = miri_run(ctx, key, args)
+        rep = None
+        lines = out.strip().splitlines()
+        if lines:
+            try:
+                rep = json.loads(lines[-1])
+            except Exception:
+                rep = None
+        if code in (0, 1) and rep is not None:
+            return rep
+        if "unsupported operation" in err:
+            sys.stderr.write(err[-3000:])
+            raise HarnessError("Miri: unsupported operation (%s/%s)" % (key, scenario))
+        runs = re.findall(r"^RUN (\d+)$", err, re.M)
+        idx = int(runs[-1]) if runs else i * per
+        errline = next((l for l in err.splitlines() if l.startswith("error:")), "exit %d" % code)
+        where = next((l.strip() for l in err.splitlines() if "-->" in l and "fast-tlsh" in l), "")
+        rargs = ["batch", scenario, "--seed", str(vd.seed), "--start", str(idx), "--count", "1", "--threads", "1", "--small", "--trace-runs"] + list(extra)
+        hist = subprocess.run([build(ctx, "default"), "history", scenario, "--seed", str(vd.seed), "--index", str(idx), "--small"], stdout=subprocess.PIPE, text=True).stdout.strip()
+        return {"scenario": scenario, "seed": str(vd.seed), "evaluations": max(0, idx - i * per), "violation_count": 1,
+                "violations": [{"index": idx, "class": "miri:" + re.sub(r"\d+", "", errline)[:90], "engine": "miri", "argv": rargs,
+                                "detail": "%s %s (configuration %s, run %d)" % (errline, where, key, idx),
+                                "history": {"config": key, "many_seeds": None, "scenario_history": json.loads(hist) if hist.startswith("{") else None}}]}
+    with ThreadPoolExecutor(max_workers=procs) as ex:
+        reps = list(ex.map(one, range(procs)))
+    for r in reps:
+        r.setdefault("counters", {})
+        r["counters"]["probe.miri_runs"] = r.get("evaluations", 0)
+        vd.add(key, r)
+    ctx.log("miri %s/%s: %d x %d histories in %.1fs, %d violations" % (key, scenario, procs, per, time.time() - t, sum(r.get("violation_count", 0) for r in reps)))
+
+
+def check_C17(ctx, tier, seed):
+    vd = Verdict(ctx, "C17", tier, seed, "exploration")
+    quick = tier == "quick"
+    native = ["dbg", "dbg_unsafe", "rel_unsafe"] + ([] if quick else ["asan", "asan_unsafe"])
+    bins = build_many(ctx, native + ["default"])
+    scen = [("c17api", 60_000), ("c17reader", 40_000), ("c03", 20_000), ("c12", 20_000), ("c11small", 10_000)]
+    mult = 1 if quick else 40
+    for cfg in native:
+        env = None
+        if cfg.startswith("asan"):
+            env = dict(os.environ, ASAN_OPTIONS="detect_leaks=0:abort_on_error=1")
+        for sc, n in scen:
+            n = n * mult // (8 if cfg.startswith("asan") else 1)
+            sim_batch_procs(ctx, vd, cfg, bins[cfg], sc, n, abort_engine="asan" if cfg.startswith("asan") else "native-abort", env=env)
+    # Miri: a deterministic interpreter that reports UB; under feature `unsafe` every invariant!() is an
+    # unreachable_unchecked, so a false invariant is reported as "entering unreachable code"
+    miri_cfgs = ["miri_sse2", "miri_unsafe_sse2"] if quick else ["miri_sse2", "miri_sse41", "miri_avx2", "miri_unsafe_sse2", "miri_unsafe_sse41", "miri_unsafe_avx2"]
+    per = 24 if quick else 400
+    for cfg in miri_cfgs:
+        for sc in (["c17api", "c17reader"] if quick else ["c17api", "c17reader", "c03", "c12"]):
+            miri_batches(ctx, vd, cfg, sc, per * NCPU // 2, NCPU // 2)
+    if not quick:
+        miri_batches(ctx, vd, "miri_unsafe_serde", "c16", 800, 8)
+        miri_batches(ctx, vd, "miri_unsafe_serde", "c16mock", 800, 8)
+    vd.extra["engines"] = {"native debug-assertions+overflow-checks": [c for c in native if c.startswith("dbg")], "native release with feature unsafe": ["rel_unsafe"],
+                           "AddressSanitizer": [c for c in native if c.startswith("asan")], "Miri": miri_cfgs,
+                           "unsafe-feature transcript == safe transcript": "checked by C07 (d), builds m_unsafe vs m_plain"}
+    vd.extra["components_real"] = ["all of fast-tlsh through its safe public API, incl. the SIMD backends of each tier and hash_stream with caller-supplied readers"]
+    vd.extra["components_stub"] = ["readers (honest and contract-violating: over-report by 1, by 10^6, usize::MAX, claims-without-writing)", "Miri's interpreter; ASan's runtime"]
+    vd.assumptions = ["decided over the histories the simulator generates; the parse/compare input spaces are sampled, not enumerated",
+                      "a panic is accepted only after a reader lied in that run, or for quartile(i) with i >= NUMBER_OF_BUCKETS",
+                      "Miri 'unsupported operation' is a harness error (exit 2), never a VIOLATION"]
+    return vd.finish()
+
+
 def check_C11(ctx, tier, seed):
     vd = Verdict(ctx, "C11", tier, seed, "exploration")
     bins = build_many(ctx, ["hooked", "hooked_dbg"])
@@ -683,9 +789,9 @@ def check_C16(ctx, tier, seed):
     return vd.finish()
 
 
-SETUP_CONFIGS = ["default", "hooked", "hooked_dbg", "shuttle"] + SERDE_CONFIGS + MATRIX_QUICK + ALLOC_CONFIGS
+SETUP_CONFIGS = ["default", "hooked", "hooked_dbg", "shuttle"] + SERDE_CONFIGS + MATRIX_QUICK + ALLOC_CONFIGS + ["dbg", "dbg_unsafe", "rel_unsafe"]
 
-CHECKS = {"C03": check_C03, "C07": check_C07, "C11": check_C11, "C12": check_C12, "C16": check_C16, "C18": check_C18}
+CHECKS = {"C03": check_C03, "C07": check_C07, "C11": check_C11, "C12": check_C12, "C16": check_C16, "C17": check_C17, "C18": check_C18}
 
 
 def replay(ctx, pid, path):
@@ -741,11 +847,14 @@ def replay(ctx, pid, path):
 
 
 def replay_abort(ctx, doc, path, report):
+    """A process abort (sanitizer report, non-unwinding panic, signal): re-run the same index range in a
+    fresh process (the heap layout a native crash depends on is approximately that of the original run)."""
     cfg = doc["config"]
     b = build(ctx, cfg)
-    code, rep, err = run_sim(ctx, b, ["replay", path], allow_abort=True)
+    env = dict(os.environ, ASAN_OPTIONS="detect_leaks=0:abort_on_error=1") if cfg.startswith("asan") else None
+    code, rep, err = run_sim(ctx, b, doc["argv"], allow_abort=True, env=env)
     if code == 1:
-        return report(True, rep["violation"]["detail"])
+        return report(True, json.dumps(rep.get("violations", [{}])[0].get("detail", ""))[:400])
     return report(code != 0, "exit %s: %s" % (code, err[-400:].replace("\n", " | ")))
 
 
